@@ -286,7 +286,7 @@ func drawMut(t *rapid.T) MutCase {
 }
 
 var specMut = pbt.Register(pbt.Spec[MutCase]{
-	Prop: "C20", Name: "laws-after-mutation",
+	Prop: "C20", Name: "laws-after-mutation", Parallel: 8,
 	Rule:  "a map, int map or list a (depth <= 3) and a related value b are compared in all directions; then 1-4 in-place changes are applied to a (or, one time in five, to a container nested in it) through the public mutators Put (existing / new key), PutAll, Read into the used object, Clear, NewList, Add, Set; after every change all laws of the statement are evaluated on the triple (a, decode(encode(a)), b): no panic, reflexive, symmetric, transitive Equals, a equal to and comparing zero with its decoded encoding, sign-reversing and transitive CompareTo, type order; non-trivial = at least one change was applied; distinct by the encodings of a, b and the operations",
 	Quick: 6000, Thorough: 600000,
 	Draw: drawMut, Run: runMut,
